@@ -92,7 +92,7 @@ for _g, _n in _GROUPS.items():
             fn="wallpaper.rs get_wallpaper_group + transform.rs Transform2::from_operations (real parser, concrete string)",
             what="string %d of group %s parses to a general position of the ITA table of that group (modulo lattice translations); which entry is reported through a named cover" % (_k, _g))
     KANI["k_tables_label_%s" % _g] = dict(
-        props=["C10", "C16", "C04"], kind="complete", fn="wallpaper.rs get_wallpaper_group, Wallpaper::new",
+        props=["C10", "C16", "C04", "C08"], kind="complete", fn="wallpaper.rs get_wallpaper_group, Wallpaper::new",
         what="group %s: name equals the requested group's own name, crystal family and order as tabulated in ITA" % _g)
 
 
@@ -265,7 +265,7 @@ PROPS["C03"] = dict(
                "convergence error of the truncated sum for the uncut potential"],
 )
 PROPS["C08"] = dict(
-    level="proof", units=["opt", "state", "geom"], kani=["k_basis_set_reset", "k_cell_dof", "k_cell_from_family", "k_site_basis"], lemmas=[],
+    level="proof", units=["opt", "state", "geom"], kani=["k_basis_set_reset", "k_cell_dof", "k_cell_from_family", "k_site_basis"] + ["k_tables_label_%s" % g for g in _GROUPS], lemmas=[],
     explanation="Verus proves on the real get_degrees_of_freedom / get_basis / generate_basis (both state kinds) that a valid state yields at least one handle, each with the bounds of the property statement "
                 "([0.01, length], [0.1, ratio], [pi/6, pi/2] only for oblique cells, [-1/2,1/2], [0, 2pi/rot]) and the current value inside them; on the real optimiser loop that bounds never change and every value stays inside "
                 "its bounds at every step and at both exits (inv.wf, exit*.held), and that the final assert (defined score) cannot fail. Kani proves the same bounds, the frame (a parameter without a handle keeps its bits: the cell stays in its family) "
